@@ -14,16 +14,17 @@ RULE = ("EXHAUSTIVE decision table, every run: name class {built-in helper, user
         "helpers/hooks and a context-replacing decorator are defined in the harness and mirrored in the model; oracle = the "
         "table stated by the property; non-trivial = every cell; distinct by cell")
 DEFINITE_FLOOR = 0.95
-POSITIONS = [("top", "%s"), ("each", "{{#each one}}%s{{/each}}"), ("with", "{{#with w}}%s{{/with}}"), ("partial", "{{> host}}")]
+POSITIONS = [("top", "%s"), ("each", "{{#each one}}%s{{/each}}"), ("with", "{{#with w}}%s{{/with}}"), ("partial", "{{> host}}"),
+             ("setctx", "{{*setctx nu}}%s")]    # … and after a decorator replaced the render data by an equal document
 
 
 def cell(nameclass, form, hooks, local, strict):
     """(template fragment, expected ('out', text) | ('err', reason) | None)"""
     # names
-    name = {"builtin": "len", "user": "uh", "field": "fld", "both": "both", "neither": "nix"}[nameclass]
+    name = {"builtin": "len", "user": "uh", "field": "fld", "both": "both", "neither": "nix", "nullfield": "nul"}[nameclass]
     has_helper = nameclass in ("builtin", "user", "both")
-    has_field = nameclass in ("field", "both")
-    fieldval = "F"
+    has_field = nameclass in ("field", "both", "nullfield")
+    fieldval = "" if nameclass == "nullfield" else "F"     # a field that is present and null is a value (written as nothing), not a missing one
     pre = "{{*sethelper \"%s\" \"L\"}}" % name if local else ""
     if form == "bare":
         t = "{{%s}}" % name
@@ -119,9 +120,9 @@ def cell(nameclass, form, hooks, local, strict):
 def generate(rng, n, tier="quick"):
     out = []
     k = 0
-    data_base = {"fld": "F", "both": "F", "arr": [1, 2], "one": [0], "w": {}, "fls": False}
+    data_base = {"fld": "F", "both": "F", "arr": [1, 2], "one": [0], "w": {}, "fls": False, "nul": None}
     for nameclass, form, hooks, local, strict in itertools.product(
-            ["builtin", "user", "field", "both", "neither"], ["bare", "args", "block", "chain", "chainnl", "rawblk", "sub", "dot", "this", "brk"],
+            ["builtin", "user", "field", "both", "neither", "nullfield"], ["bare", "args", "block", "chain", "chainnl", "rawblk", "sub", "dot", "this", "brk"],
             [False, True], [False, True], [False, True]):
         if local and form in ("dot", "this", "brk"):
             pass
@@ -130,8 +131,10 @@ def generate(rng, n, tier="quick"):
             helpers = [{"name": "uh", "kind": "mark", "tag": "U"}, {"name": "both", "kind": "mark", "tag": "U"}, {"name": "id", "kind": "vret"}]
             if hooks:
                 helpers += [{"name": "helperMissing", "kind": "mark", "tag": "HM"}, {"name": "blockHelperMissing", "kind": "mark", "tag": "BHM"}]
-            cfg = {"escape": "none", "strict": strict, "helpers": helpers, "decorators": [{"name": "sethelper", "kind": "sethelper"}]}
+            cfg = {"escape": "none", "strict": strict, "helpers": helpers, "decorators": [{"name": "sethelper", "kind": "sethelper"}, {"name": "setctx", "kind": "setctx"}]}
             data = dict(data_base)
+            if pos == "setctx":
+                data["nu"] = dict(data_base)
             if pos == "each":
                 data["one"] = [dict(data_base)]
             if pos == "with":
